@@ -351,7 +351,37 @@ def run_history(run, rng, hid, maxlen, steps_out):
             cand = res if isinstance(res, list) else [res]
             td = rng.choice(cand)
         d = O.o_build(O.skel_of(td))
+        if rng.random() < 0.15:
+            check_roundtrip(run, hid, stepno, td, d)
     return hist
+
+
+def check_roundtrip(run, hid, stepno, td, d):
+    """Props/C04.lean:flatten_unflatten_roundtrip on the implementation: when no key on the way to a leaf contains the
+    separator, flatten_keys(sep).unflatten_keys(sep) binds exactly the leaves of the original (and no empty dict)"""
+    leaves = O.o_leaves(d)
+    if any("." in k for p, _ in leaves for k in p):
+        return
+    case = {"history": hid, "step": stepno, "pre": O.o_skel(d), "op": ["roundtrip", "."]}
+    run.count("ops", "roundtrip")
+    try:
+        back = td.flatten_keys(".").unflatten_keys(".")
+        bd = O.o_build(O.skel_of(back))
+        same = O.o_build(O.skel_of(td))
+    except TimeoutError:
+        raise
+    except Exception as e:  # noqa
+        run.oracle_fail("roundtrip", case, f"flatten_keys('.').unflatten_keys('.') raised {type(e).__name__}: {str(e)[:120]}", "roundtrip:raised")
+        return
+    key = lambda pv: (pv[0], repr(pv[1]))
+    if sorted(O.o_leaves(bd), key=key) != sorted(leaves, key=key):
+        run.oracle_fail("roundtrip", case, f"leaves after the roundtrip {O.o_leaves(bd)[:6]} differ from the original {leaves[:6]}", "roundtrip:leaves")
+    elif any(isinstance(v, dict) and not O.o_leaves(v) for _, v in O.o_paths(bd)):
+        run.oracle_fail("roundtrip", case, "the roundtrip left an empty nested tensordict behind", "roundtrip:empty-node")
+    elif same != d:
+        run.oracle_fail("roundtrip", case, "the out-of-place roundtrip modified its source", "roundtrip:source-modified")
+    else:
+        run.oracle_ok("roundtrip")
 
 
 def replay_file(run, path, quiet=False):
